@@ -393,6 +393,53 @@ def check_case(case, ctx):
     ctx.case(case, nontrivial, sample={'call': what, 'emitted': str(p)} if nontrivial else None)
 
 
+# -- complete grid: every public callable x every parameter x every wrong-kind value, the other arguments valid ------------
+GRID_VALUES = [['none'], ['int', -1], ['int', 0], ['int', 100], ['int', 10 ** 6], ['float', 1.5], ['float', 2.0], ['bool', True], ['bool', False],
+               ['str', ''], ['str', 'ab'], ['str', '1a'], ['str', 'a b'], ['str', '\\'], ['bytes', 'a'], ['list', []], ['list', [['int', 1]]],
+               ['list', [['str', 'a'], ['none']]], ['obj'], ['pre', ['lit', 'ab', False]], ['pre', ['empty', 0]], ['cexpr', ['t', 'Backslash']]]
+
+
+def valid_default(label, pname):
+    if pname in PATTERN_PARAMS or pname == 'pattern':
+        return ['str', 'a']
+    if pname in BOOL_PARAMS:
+        return ['bool', pname in ('escape', 'on_right', 'is_greedy')]
+    if pname in INT_PARAMS:
+        return ['int', {'n': 1, 'm': 3, 'n_min': 1, 'n_max': 3, 'min_chars': 1, 'max_chars': 3, 'min_decimal': 1, 'max_decimal': 3, 'base': 10}[pname]]
+    if pname == 'name':
+        return ['str', 'n']
+    if pname == 'ref':
+        return ['int', 1]
+    if pname in ('start', 'end'):
+        if label.startswith('classes:'):
+            return ['str', 'a' if pname == 'start' else 'z']
+        return ['int', 1 if pname == 'start' else 50]
+    if pname == 'formats':
+        return ['str', 'dd/mm/yyyy']
+    if pname in AFFIX_PARAMS:
+        return ['str', 'a']
+    raise HarnessError(f'no default for parameter {pname} of {label}')
+
+
+def grid_cases():
+    for label, obj, sig in targets():
+        params = [(n, p) for n, p in sig.parameters.items() if n != 'self']
+        for target_name, tp in params:
+            for bad in GRID_VALUES:
+                args, kwargs = [], {}
+                for pname, p in params:
+                    if p.kind == inspect.Parameter.VAR_POSITIONAL:
+                        item = ['str', 'a']
+                        args.extend([bad, ['str', 'b']] if pname == target_name else [item, ['str', 'b']])
+                        continue
+                    v = bad if pname == target_name else valid_default(label, pname)
+                    if p.default is inspect.Parameter.empty or any(q.kind == inspect.Parameter.VAR_POSITIONAL for _, q in params):
+                        args.append(v)
+                    else:
+                        kwargs[pname] = v
+                yield {'mode': 'api', 'target': label, 'recv': ['lit', 'ab', False] if label.startswith('method:') else None, 'args': args, 'kwargs': kwargs}
+
+
 def cls_expr_strategy():
     from pbt.props import c07
     return c07.expr_strategy(max_leaves=4, invalid=True)
@@ -402,7 +449,7 @@ def strategy(spec, ctx):
     mode = spec['mode']
     if mode == 'tree':
         feats = dsl.swarm_features(ctx.seed, ctx.shard_index)
-        return st.fixed_dictionaries({'mode': st.just('tree'), 'tree': dsl.tree_strategy(feats, max_leaves=6),
+        return st.fixed_dictionaries({'mode': st.just('tree'), 'tree': st.one_of(*[dsl.tree_strategy(feats, max_leaves=6)] * 5, dsl.hostile_tree(5), dsl.deep_tree_strategy(feats)),
                                       'tseed': st.integers(0, 9999), 'ref': dsl.refspec_strategy(feats)})
     if mode == 'cls':
         return st.fixed_dictionaries({'mode': st.just('cls'), 'expr': cls_expr_strategy()})
@@ -412,11 +459,16 @@ def strategy(spec, ctx):
 def shards(tier):
     quick = tier == 'quick'
     out = []
-    for mode, n, ex in (('api', 8, 1000), ('tree', 5, 1200), ('cls', 3, 600)):
+    for mode, n, ex in (('api', 7, 1000), ('tree', 5, 1200), ('cls', 3, 600)):
         for _ in range(n if quick else n * 4):
             out.append({'mode': mode, 'examples': ex if quick else ex * 6})
+    out.append({'mode': 'grid'})
     return out
 
 
 def run_shard(spec, ctx):
+    if spec['mode'] == 'grid':
+        from pbt.common import run_enumeration
+        run_enumeration(ctx, grid_cases(), check_case, f'every public callable x every parameter x {len(GRID_VALUES)} wrong-kind / edge values (others valid)')
+        return
     run_hypothesis(ctx, strategy(spec, ctx), check_case, spec['examples'], label=spec['mode'])
